@@ -293,18 +293,20 @@ PrintVal(m, v, end, kont) ==
     THEN LET c == m.heap[v.z]
              r == RootOf(m, v.z)
              rc == m.heap[r]
+             items == Resolve(m, VL(rc.acc)).l      \* (items that are cells themselves: produced when this one was)
          IN IF rc.state = "busy" THEN Undef(m, "lazy-list-printed-while-it-is-produced")
+            ELSE IF rc.state = "done" /\ ZIn(VL(items)) THEN Undef(m, "nested-cell-not-produced")
             ELSE IF c.state = "done"       \* this very object has pulled everything before
-            THEN PushCtl([m EXCEPT !.out = @ \o ZOpen \o ZJoinRepr(rc.acc) \o ZClose \o end, !.printed = TRUE], kont)
+            THEN PushCtl([m EXCEPT !.out = @ \o ZOpen \o ZJoinRepr(items) \o ZClose \o end, !.printed = TRUE], kont)
             ELSE IF rc.state = "done"      \* a copy that has pulled nothing yet: the items are there, new to the copy
-            THEN PushCtl([m EXCEPT !.out = @ \o ZOpen \o ZJoinRepr(rc.acc) \o ZClose \o end, !.printed = TRUE,
+            THEN PushCtl([m EXCEPT !.out = @ \o ZOpen \o ZJoinRepr(items) \o ZClose \o end, !.printed = TRUE,
                                    !.heap = [k \in 1..Len(@) |-> IF k \in ChainOf(m, v.z) THEN [@[k] EXCEPT !.state = "done"] ELSE @[k]]],
                          kont)
             ELSE PushCtl([m EXCEPT !.out = @ \o ZOpen, !.printed = TRUE, !.nstk = @ + 1, !.heap[r].state = "busy"],
                          <<[rc EXCEPT !.k = "hof", !.zid = r, !.emit = TRUE, !.end = end, !.also = ChainOf(m, v.z)]>> \o kont)
     ELSE IF ZIn(v)      \* vy_print(list) = vy_print(vy_str(list)): the text is built first -- list(lazy) produces every
                         \* item of every cell met, their bodies run now -- and written afterwards
-    THEN PushCtl([m EXCEPT !.printed = TRUE], ForceItems(ZRefs(v)) \o <<[k |-> "k_printres", v |-> v, end |-> end]>> \o kont)
+    THEN PushCtl([m EXCEPT !.printed = TRUE], <<[k |-> "k_render", v |-> v], [k |-> "k_printres", v |-> v, end |-> end]>> \o kont)
     ELSE IF ~Printable(v) THEN Undef(m, "print-of-function")
     ELSE PushCtl([m EXCEPT !.out = @ \o Str(v) \o end, !.printed = TRUE], kont)
 
@@ -499,10 +501,15 @@ HofK(m0, h) ==         \* the call returned m0.rv
         \* separator after the NEXT item has been produced and before it is written
         item == IF h.op = "map" THEN r ELSE h.cur
         got == h.op = "map" \/ PyTruthy(r)
+        nested == h.lz /\ got /\ ZIn(item)          \* an item that is (or holds) a lazily produced list itself
         m1 == IF h.lz /\ h.emit /\ got
-              THEN [m0 EXCEPT !.out = @ \o (IF h.acc # <<>> THEN ZSep ELSE <<>>) \o Repr(item)]
+              THEN [m0 EXCEPT !.out = @ \o (IF h.acc # <<>> THEN ZSep ELSE <<>>) \o (IF nested THEN <<>> ELSE Repr(item))]
               ELSE m0
-    IN IF h.lz /\ got /\ ~Printable(item) THEN Undef(m0, "lazy-item-not-plain") ELSE
+    IN IF h.lz /\ got /\ ~nested /\ ~Printable(item) THEN Undef(m0, "lazy-item-not-plain")
+       ELSE IF nested /\ h.emit
+       THEN \* LazyList.output writes such an item with vy_print(item, "") -- its own bracket, its items as they are produced
+            PrintVal(m1, item, <<>>, <<[back EXCEPT !.acc = Append(h.acc, item)]>>)
+       ELSE
        CASE h.op = "map" -> PushCtl(m1, <<[back EXCEPT !.acc = Append(h.acc, r)]>>)
          [] h.op = "filter" ->
               PushCtl(m1, <<[back EXCEPT !.acc = IF PyTruthy(r) THEN Append(h.acc, h.cur) ELSE h.acc]>>)
@@ -691,18 +698,28 @@ NodeStep(m0, n) ==
    same cell), dropped and printed; anything else that could look into it is outside the model *)
 HasZ(m) == \E k \in 1..Len(Stk(m)) : ZIn(Stk(m)[k])
 ZSafeElems == {"pop", "dup", "swap", "print", "printkeep", "printnonl", "wrap", "wrapstack", "stacklen", "pair"}
-ZSafeItem(it) ==
-    CASE it.k = "elem" -> it.name \in ZSafeElems
+(* The frame rule (MC_Machine.FrameRule, C09) says a plain element of table arity k leaves everything below the
+   top k entries alone: a reference below them does not matter to it. *)
+TopHasZ(m, k) == \E j \in 1..Len(Stk(m)) : j > Len(Stk(m)) - k /\ ZIn(Stk(m)[j])
+ElemZSafe(m, name) ==
+    \/ name \in ZSafeElems
+    \/ name \notin {"call", "revstack", "over", "garrcopy"} /\ ~TopHasZ(m, ElemArity(name))
+ZSafeItem(m, it) ==
+    CASE it.k = "elem" -> ElemZSafe(m, it.name)
       [] it.k = "node" ->
-           \/ it.n.t = "lam"
-           \/ /\ it.n.t \in {"gen", "tok"}
-              /\ \/ it.n.tok.k = "number"
-                 \/ it.n.tok.k = "general" /\ ElemName(it.n.tok.v) \in ZSafeElems
-      [] it.k \in {"iftest", "whiletest"} -> FALSE
+           CASE it.n.t \in {"lam", "lmap", "lfilter", "lsort", "while"} -> TRUE      \* (push a function / run the condition first)
+             [] it.n.t \in {"gen", "tok"} ->
+                  CASE it.n.tok.k \in {"number", "string", "character", "variable_get"} -> TRUE
+                    [] it.n.tok.k = "general" -> ElemZSafe(m, ElemName(it.n.tok.v))
+                    [] it.n.tok.k = "variable_set" -> ~TopHasZ(m, 1)
+                    [] OTHER -> FALSE
+             [] it.n.t \in {"if", "for"} -> ~TopHasZ(m, 1)
+             [] OTHER -> FALSE           \* modifiers, function calls and definitions, list literals, X / x
+      [] it.k \in {"iftest", "whiletest"} -> ~TopHasZ(m, 1)
       [] OTHER -> TRUE
 
 ItemStep(m0, it) ==
-    IF HasZ(m0) /\ ~ZSafeItem(it) THEN Undef(m0, "lazy-value-on-stack") ELSE
+    IF HasZ(m0) /\ ~ZSafeItem(m0, it) THEN Undef(m0, "lazy-value-on-stack") ELSE
     CASE it.k = "node" -> NodeStep(m0, it.n)
       [] it.k = "elem" -> Elem(m0, it.name)
       [] it.k = "popcv" -> [m0 EXCEPT !.cvals = Front(@)]
@@ -740,6 +757,15 @@ ItemStep(m0, it) ==
       [] it.k = "k_printres" ->
            LET r == Resolve(m0, it.v)
            IN IF ~Printable(r) THEN Undef(m0, "print-of-function") ELSE [m0 EXCEPT !.out = @ \o Str(r) \o it.end]
+      [] it.k = "k_render" ->     \* vy_repr walks the value: list(lazy) produces a cell completely, THEN its items are walked in order
+           LET v == it.v
+           IN IF IsZ(v)
+              THEN IF m0.heap[RootOf(m0, v.z)].state = "done"
+                   THEN PushCtl(m0, <<[k |-> "zforce", id |-> v.z]>>
+                                    \o [j \in 1..Len(m0.heap[RootOf(m0, v.z)].acc) |-> [k |-> "k_render", v |-> m0.heap[RootOf(m0, v.z)].acc[j]]])
+                   ELSE PushCtl(m0, <<[k |-> "zforce", id |-> v.z], it>>)
+              ELSE IF IsL(v) THEN PushCtl(m0, [j \in 1..Len(v.l) |-> [k |-> "k_render", v |-> v.l[j]]])
+              ELSE m0
       [] it.k = "zforce" ->      \* list(lazy): everything is produced (through the original, for a copy); nothing is written
            LET r == RootOf(m0, it.id)
                rc == m0.heap[r]
@@ -774,7 +800,7 @@ JoinNL(vs) == IF vs = <<>> THEN <<>>
 Finish(m) ==
     \* flag W: output = vy_str(stack) is built whether or not anything is written -- every cell on the stack is produced
     IF "W" \in m.cfg.flags /\ (\E k \in 1..Len(Stk(m)) : ZIn(Resolve(m, Stk(m)[k])))
-    THEN PushCtl(m, ForceItems(ZRefsSeq(Stk(m)))) ELSE
+    THEN PushCtl(m, <<[k |-> "k_render", v |-> VL(Stk(m))]>>) ELSE
     LET empty == Stk(m) = <<>>
         p == Pop1(m)
         o == p[1]
